@@ -24,7 +24,7 @@ import (
 func init() {
 	core.Register(&core.Simple{
 		Id: "C17", Lvl: "exploration", Quick: 320, Thorough: 6000, PerBatch: 80, Width: 40, Timeout: 1500,
-		RuleText: "each case: an administrator disconnects a target (an ordinary named user, a user who agreed with an empty name, or a 1.5+ client between login and agreed; for the last no user-left notice is demanded) at a random IPv4 address with option none / temporary / permanent ban (the option sent as a 2-byte or, in a quarter of the cases, a 4-byte integer; optionally after an earlier expired or temporary entry for the same address; or the case injects a ban entry whose expiry lies 2 s .. 24 h in the past or 1 min .. 24 h in the future); oracles: reply, target connection closed, every other client receives a user-left notice, ban entry in memory and in Banlist.yaml with expiry bracketed by the harness clock readings + 30 min (no slack), then reconnect attempts from the same address (other port; also over a connection that had been accepted before the ban but had not yet sent its handshake), near-miss addresses (a.b.c.d0, 1a.b.c.d, neighbour host) and an unrelated address, before and after a restart on the same ban file: a banned address must get handshake reply + one ban notice + close with its login transaction unprocessed, all others must log in. a stress batch has 4-8 administrators ban different users at the same moment and then restarts: every address must still be banned. distinct = (ban option or injected expiry class, restart phase, address class); non-trivial = every case",
+		RuleText: "each case: an administrator disconnects a target (an ordinary named user, a user who agreed with an empty name, or a 1.5+ client between login and agreed; for the last no user-left notice is demanded) at a random IPv4 address with option none / temporary / permanent ban (the option sent as a 2-byte or, in a quarter of the cases, a 4-byte integer; optionally after an earlier expired or temporary entry for the same address; or the case injects a ban entry whose expiry lies 2 s .. 24 h in the past or 1 min .. 24 h in the future); oracles: reply, target connection closed, every other client receives a user-left notice, ban entry in memory and in Banlist.yaml with expiry bracketed by the harness clock readings + 30 min (no slack), then reconnect attempts from the same address (other port; also over a connection that had been accepted before the ban but had not yet sent its handshake), near-miss addresses (a.b.c.d0, 1a.b.c.d, neighbour host) and an unrelated address, before and after a restart on the same ban file (in a third of the cases a cut-short Banlist.yaml.tmp of a crashed server is lying around; in a quarter of the named-target cases the target leaves by itself right after the request and another user logs in within the server's one-second delay, and must not be hit by it): a banned address must get handshake reply + one ban notice + close with its login transaction unprocessed, all others must log in. a stress batch has 4-8 administrators ban different users at the same moment and then restarts: every address must still be banned. distinct = (ban option or injected expiry class, restart phase, address class); non-trivial = every case",
 		Case:     runCase,
 		Extra: func(tier string, seed int64) []core.Batch {
 			n := 8
@@ -353,16 +353,47 @@ func runCase(c *core.Case) {
 			c.Fail("C17/disconnect/refused", "disconnect (%s) by an administrator was refused: %v", mode, rep)
 			return
 		}
+		// In a quarter of the cases with a named target, the target hangs up by itself as soon as the request is
+		// answered (the server disconnects it only a second later), and another user logs in from elsewhere in that
+		// second: the delayed disconnect is meant for the target, never for whoever holds some id by then.
+		var newcomer *refclient.Client
+		if flavour == "named" && r.Chance(1, 4) {
+			tgt.Hangup()
+			newcomer, err = refclient.LoginAs(srv, fmt.Sprintf("10.17.8.%d:1", 1+r.Intn(250)), "guest", "", "Newcomer")
+			if err != nil {
+				c.Unsure("newcomer login: %v", err)
+				return
+			}
+			c.Count("target_left_first_and_newcomer_arrived", 1)
+			desc += "/target-left-first"
+		}
 		select {
 		case <-tgt.Conn.Done:
 		case <-time.After(refclient.Watchdog):
 			c.Fail("C17/disconnect/target-not-closed", "%s: the target's connection was not closed", mode)
 			return
 		}
-		if !tgt.Conn.ServerClosed() {
+		if newcomer == nil && !tgt.Conn.ServerClosed() {
 			c.Fail("C17/disconnect/target-not-closed", "%s: handler returned but the connection was not closed by the server", mode)
 		}
 		srv.Quiesce(refclient.Watchdog)
+		if newcomer != nil {
+			time.Sleep(1300 * time.Millisecond) // the server's own disconnect of the target runs 1 s after the request
+			srv.Quiesce(refclient.Watchdog)
+			listed := false
+			if ul, ok := adm.Call(300); ok {
+				us, _ := refclient.UserList(ul)
+				for _, u := range us {
+					if string(u.Name) == "Newcomer" {
+						listed = true
+					}
+				}
+			}
+			if _, ok := newcomer.Call(500); !ok || !listed || newcomer.Conn.HandlerDone() {
+				c.Fail("C17/disconnect/hit-somebody-else", "%s: the target left by itself right after the request and another user logged in from a different address within the second; after the server's delayed disconnect that user is listed=%v, its connection is closed=%v, its keep-alive answered=%v", mode, listed, newcomer.Conn.HandlerDone(), ok)
+				return
+			}
+		}
 		for _, o := range []*refclient.Client{adm, obs} {
 			n := 0
 			for _, t := range o.Drain() {
@@ -437,6 +468,11 @@ func runCase(c *core.Case) {
 		if !tryConnect(c, srv, near[k], []*refclient.Client{adm, obs}, "live") {
 			return
 		}
+	}
+	if c.Index%3 == 0 {
+		// what a crash in the middle of an earlier ban leaves behind: a temporary ban file, cut short
+		os.WriteFile(banFile+".tmp", []byte("10.99.99.1: null\n10.99."), 0644)
+		c.Count("stale_ban_temp_file_before_restart", 1)
 	}
 	// restart on the same configuration directory
 	srv2, err := fixture.New(fixture.Options{Dir: srv.Dir})
